@@ -276,6 +276,17 @@ func (h *FBDNSDB) ServeDNSWithRCODE(ctx context.Context, w dns.ResponseWriter, r
 		h.stats.IncrementCounter("DNS_response.refused")
 		m := new(dns.Msg)
 		m.SetRcode(r, dns.RcodeRefused)
+		// echo OPT and the client subnet like every other reply; otherwise
+		// SizeAndDo reuses the request's OPT stripped of the ECS option
+		if r.IsEdns0() != nil {
+			o = new(dns.OPT)
+			o.Hdr.Name = "."
+			o.Hdr.Rrtype = dns.TypeOPT
+			if ecs != nil {
+				o.Option = append(o.Option, ecs)
+			}
+			m.Extra = append(m.Extra, o)
+		}
 		// does not matter if this write fails
 		return h.writeAndLog(state, m, ecs)
 	}
